@@ -24,7 +24,7 @@ from vk.engine import hyp_search, parallel
 from vk.strategies import valspec as V
 from xknx import XKNX
 from xknx.core.connection_state import XknxConnectionState, XknxConnectionType
-from xknx.dpt import DPTArray, DPTBase, DPTBinary, DPTNumeric
+from xknx.dpt import DPTArray, DPTBase, DPTBinary
 from xknx.exceptions import ConversionError, CouldNotParseAddress, CouldNotParseTelegram
 from xknx.mcp import (
     DecodeDptPayloadInput,
@@ -86,15 +86,6 @@ ASSUMPTIONS = [
 G = "1/2/3"
 
 # ----------------------------------------------------------------------------- helpers
-
-
-def run_async(coro: Any) -> Any:
-    """Drive a coroutine of the (never really suspending) tool functions on an own event loop."""
-    loop = asyncio.new_event_loop()
-    try:
-        return loop.run_until_complete(coro)
-    finally:
-        loop.close()
 
 
 def drive(coro: Any) -> Any:
